@@ -173,6 +173,8 @@ pub open spec fn wdom_ok(pos: Pos, vis: Map<u32, Lifecycle>, w: Map<u32, Lifecyc
 pub open spec fn nb_ok(buffered: Set<u32>, w: Map<u32, Lifecycle>) -> bool {
     forall|id: u32| #[trigger] buffered.contains(id) ==> !w.dom().contains(id)
 }
+// lifecycle ids are never 0
+pub open spec fn ids_nz(pos: Pos) -> bool { forall|id: u32| #[trigger] pos.dom().contains(id) ==> id != 0 }
 // no buffered lifecycle is marked for a regular refresh
 pub open spec fn marks_ok(buffered: Set<u32>, marks: Seq<u32>) -> bool {
     forall|x: u32| #[trigger] marks.contains(x) ==> !buffered.contains(x)
@@ -614,6 +616,7 @@ pub fn vx_prepopulate<T: VLcTab>(mp: &mut VxEcuMap, t: &T) -> (pos: Ghost<Pos>)
     requires old(mp).m() == Map::<DltChar4, Seq<Lifecycle>>::empty(),
     ensures map_ok(final(mp).m()), final(mp).total() == t.visible_msgs(), pos_inv(pos@, final(mp).m()), tab_ok(t.visible(), pos@),
         forall|id: u32| #[trigger] pos@.dom().contains(id) <==> t.visible().dom().contains(id),
+        ids_nz(pos@),
 { unimplemented!() }
 // `last_lcw_refresh_index += 1` (a u32 counter of table refreshes): ASSUMED not to overflow (fewer than 2^32 refreshes)
 #[verifier::external_body]
@@ -895,6 +898,7 @@ pub fn vx_clone_lc(lc: &Lifecycle) -> (r: Lifecycle)
 //@|        assert(wdom_ok(pos, lcs_w.visible(), lcs_w.wview())); // O:table.step.dom
 //@|        assert(nb_ok(buffered_lcs.ids(), lcs_w.wview()) && marks_ok(buffered_lcs.ids(), lcs_to_refresh@));
 //@|        assert(located(pos, msg)); // O:stream.assigned_ecu (the id denotes a lifecycle of the message's own ECU)
+//@|        assert(ids_nz(pos));
 //@|    }
 //@   hint after `let _removed = ecu_lcs.remove(`
 //@|    proof {
@@ -949,6 +953,16 @@ pub fn vx_clone_lc(lc: &Lifecycle) -> (r: Lifecycle)
 //@|            }
 //@|        }
 //@|    }
+//@   hint in `last_lc_id =` before `outflow.send(msg`
+//@|    proof { assert(lcs_to_refresh@.contains(msg.lifecycle)); } // O:table.release.flush_marked (rule #2: the lifecycle of a message released by the flush after a merge is marked for the next table refresh)
+//@   hint in `prune_lc_id =` before 1 `outflow.send(msg`
+//@|    proof { assert(lcs_to_refresh@.contains(msg.lifecycle) || msg.lifecycle == lc.id); } // O:table.release.prune_marked (a pruned message belongs to the lifecycle published right before, or to a marked one)
+//@   hint in `prune_lc_id =` before 2 `outflow.send(msg`
+//@|    proof { assert(lcs_to_refresh@.contains(msg.lifecycle)); } // O:table.release.prune_switch_marked
+//@   hint before 1 `vx_check_regular_refresh(`
+//@|    proof { assert(lcs_to_refresh@.contains(msg.lifecycle)); } // O:table.release.direct_marked (the lifecycle of a directly forwarded message - its count has just changed - is marked for the next table refresh)
+//@   hint in `buffered_msgs.pop_front() { Some(vx_m)` before `outflow.send(m,`
+//@|    proof { assert(lcs_to_refresh@.contains(m.lifecycle)); } // O:table.release.final_marked
 //@   hint before last `if !buffered_lcs.is_empty() {` ||| `if buffered_lcs.is_empty() {`
 //@|    proof {
 //@|        assert(nf ==> outflow.log() + buffered_msgs.q() == all_b);
@@ -1039,6 +1053,7 @@ pub fn vx_clone_lc(lc: &Lifecycle) -> (r: Lifecycle)
 //@|        wdom_ok(pos, lcs_w.visible(), lcs_w.wview()), // O:table.inv.dom (the table lists no lifecycle that is not in the map: no merged lifecycle)
 //@|        nb_ok(buffered_lcs.ids(), lcs_w.wview()) && marks_ok(buffered_lcs.ids(), lcs_to_refresh@), lcs_to_refresh@.no_duplicates(), // (auxiliary, untagged) a buffered lifecycle is neither in the table nor marked for a refresh
 //@|        ecu_map.total() == vmsgs0 + k, // O:table.inv.total (the message counts of all lifecycles add up to the number of messages)
+//@|        ids_nz(pos),
 //@|        queued_ok(pos, buffered_msgs.q()), // O:publish.inv.queued (the lifecycle of every queued message is a lifecycle of its own ECU in the map)
 //@|    ensures
 //@|        nf ==> k == ms0.len(),
@@ -1051,6 +1066,7 @@ pub fn vx_clone_lc(lc: &Lifecycle) -> (r: Lifecycle)
 //@|        queued_ok(pos, buffered_msgs.q()),
 //@|        forall|i: int| 0 <= i < buffered_msgs.q().len() ==> sendable(lcs_w.visible(), #[trigger] buffered_msgs.q()[i]), // O:publish.flush.sendable
 //@|        marks_ok(buffered_lcs.ids(), lcs_to_refresh@), lcs_to_refresh@.no_duplicates(),
+//@|        last_lc_id == 0 || lcs_to_refresh@.contains(last_lc_id), ids_nz(pos),
 //@|    ensures
 //@|        nf ==> buffered_msgs.q().len() == 0,
 //@|    decreases buffered_msgs.q().len(),
@@ -1081,6 +1097,7 @@ pub fn vx_clone_lc(lc: &Lifecycle) -> (r: Lifecycle)
 //@|        outflow.log().len() >= log0.len(),
 //@|        queued_ok(pos, buffered_msgs.q()),
 //@|        marks_ok(buffered_lcs.ids(), lcs_to_refresh@), lcs_to_refresh@.no_duplicates(),
+//@|        prune_lc_id == lc.id || lcs_to_refresh@.contains(prune_lc_id),
 //@|        // every queued message of the lifecycle being pruned, or of a lifecycle that is no longer buffered, can be delivered
 //@|        forall|i: int| 0 <= i < buffered_msgs.q().len() && ((#[trigger] buffered_msgs.q()[i]).lifecycle == prune_lc_id || !buffered_lcs.ids().contains(buffered_msgs.q()[i].lifecycle)) ==> sendable(lcs_w.visible(), buffered_msgs.q()[i]), // O:publish.prune.sendable
 //@|    ensures
